@@ -56,6 +56,7 @@ Record hst := HS {
   h_pub : option pubid;        (* None: AddNoPublisherHandler (disabledPublisher) *)
   h_hon : bool;                (* the subscriber closes the subscription when its context is done *)
   h_par : parent;
+  h_sub : nat;                 (* the Subscriber OBJECT (several handlers may share one: its Close() ends all their subscriptions) *)
   h_inmap : bool;              (* present in r.handlers *)
   h_started : bool;            (* h.started *)
   h_startedCh : bool;          (* h.startedCh is closed *)
@@ -74,10 +75,10 @@ Record hst := HS {
   h_hc : cpc
 }.
 #[export] Instance eta_hst : Settable _ := settable! HS
-  <h_pub; h_hon; h_par; h_inmap; h_started; h_startedCh; h_stopFn; h_stoppedSet; h_stoppedCh;
+  <h_pub; h_hon; h_par; h_sub; h_inmap; h_started; h_startedCh; h_stopFn; h_stoppedSet; h_stoppedCh;
    h_cancel; h_subOpen; h_subs; h_inflight; h_mid; h_stopreq; h_envend; h_removed; h_loop; h_hc>.
 
-Definition h0 : hst := HS None false PRun false false false false false false false false 0 0 false false false false LNone CNone.
+Definition h0 : hst := HS None false PRun 0 false false false false false false false false 0 0 false false false false LNone CNone.
 
 Inductive owner := OMain | OThr (t : tid) | OWatch.
 
@@ -199,7 +200,7 @@ Inductive choice :=
 | CPick (h : hid) (ok : bool).  (* RunHandlers: next handler of the map iteration; Subscribe succeeds? *)
 
 Inductive label :=
-| LAdd (pub : option pubid) (hon : bool)
+| LAdd (pub : option pubid) (hon : bool) (sub : nat)
 | LRunCall (t : tid)
 | LRHCall (t : tid) (par : parent)
 | LStopCall (t : tid) (h : hid)
@@ -242,6 +243,11 @@ Definition close_unstarted (s : rstate) : rstate :=
     s <| hs := fun h => if removable (hs s h) then hs s h <| h_inmap := false |> <| h_removed := true |> else hs s h |>
       <| hwg := hwg s - k |> <| maplen := maplen s - k |> <| panicked := panicked s || Nat.ltb (hwg s) k |>
   else s.
+
+(** subscriber.Close() called by handler h's handleClose: ends the subscriptions of ALL handlers that
+    use the same Subscriber object *)
+Definition close_sub (s : rstate) (h : hid) : rstate :=
+  s <| hs := fun h' => if Nat.eqb (h_sub (hs s h')) (h_sub (hs s h)) then hs s h' <| h_subOpen := false |> else hs s h' |>.
 
 Definition rh_step (s : rstate) (me : owner) (par : parent) (p : rhpc) (c : choice)
   : option (rstate * rhpc * list aev) :=
@@ -292,12 +298,12 @@ Definition cl_step (s : rstate) (me : owner) (p : clpc) (c : choice) : option (r
 
 Definition step (s : rstate) (l : label) : option (rstate * list aev) :=
   match l with
-  | LAdd pub hon =>
+  | LAdd pub hon sub =>
       match hlock s with
       | Some _ => None
       | None =>
           let h := nexth s in
-          let s1 := set_h s h (h0 <| h_pub := pub |> <| h_hon := hon |> <| h_inmap := true |>)
+          let s1 := set_h s h (h0 <| h_pub := pub |> <| h_hon := hon |> <| h_sub := sub |> <| h_inmap := true |>)
                       <| nexth := S h |> <| hwg := S (hwg s) |> <| maplen := S (maplen s) |> in
           (* select { case r.handlerAdded <- struct{}{}: default: } *)
           let s2 := if fix14 s
@@ -475,16 +481,18 @@ Definition step (s : rstate) (l : label) : option (rstate * list aev) :=
       | _ => None
       end
   | LHC h closing =>
-      let x := hs s h in
-      match h_hc x with
+      match h_hc (hs s h) with
       | CSelect =>
           if closing then
-            if closingCh s then Some (set_h s h (x <| h_hc := CDone |> <| h_subOpen := false |> <| h_cancel := true |>), []) else None
+            if closingCh s then
+              let s1 := close_sub s h in
+              Some (set_h s1 h (hs s1 h <| h_hc := CDone |> <| h_cancel := true |>), [])
+            else None
           else
             (* case <-ctx.Done(): then the non-blocking poll of routersCloseCh (D6 repair): still close the subscriber *)
             if hctx_done s h then
-              Some (set_h s h (if closingCh s then x <| h_hc := CDone |> <| h_subOpen := false |> <| h_cancel := true |>
-                               else x <| h_hc := CDone |> <| h_cancel := true |>), [])
+              let s1 := if closingCh s then close_sub s h else s in
+              Some (set_h s1 h (hs s1 h <| h_hc := CDone |> <| h_cancel := true |>), [])
             else None
       | _ => None
       end
